@@ -38,7 +38,7 @@
 (* MECHANISM SIDE.  The two algorithms of the code are modelled as         *)
 (* operators over the same tree: IterPos = the top-down walk of            *)
 (* etree_iter_paths with one counter per tag and one per PI target;        *)
-(* ImplPos = XPathNode.get_child_position as written in the pinned tree    *)
+(* ImplPos = XPathNode.get_child_position as written before fix bbeb72e    *)
 (* (elements: siblings c with c.name = child.name; others: siblings of the *)
 (* same node class).  IterAgrees is an invariant; ImplSound is checked in  *)
 (* a separate configuration where TLC must REFUTE it (design-level         *)
@@ -123,7 +123,7 @@ NameOfImpl(n) ==     \* XPathNode.name: Clark name of elements, target of PIs, N
   LET k == kind[n] IN
   IF k \in ElemK THEN <<NsOf(k), LocalOf(k)>> ELSE IF k \in PIK THEN <<"", TargetOf(k)>> ELSE <<"", "">>
 
-ImplPos(n) ==        \* get_child_position of the pinned tree
+ImplPos(n) ==        \* get_child_position before fix bbeb72e (kept as the negative model)
   IF kind[n] \in ElemK
     THEN Cardinality({m \in 1..N : m <= n /\ parent[m] = parent[n] /\ kind[m] \notin AttrK
                                     /\ NameOfImpl(m) = NameOfImpl(n)})
